@@ -1,6 +1,7 @@
 use std::{
     path::{Path, PathBuf},
     env::current_dir, sync::OnceLock, fs::ReadDir,
+    ffi::{OsStr, OsString}, os::unix::ffi::OsStrExt,
 };
 
 use regex::Regex;
@@ -50,18 +51,17 @@ fn ls_file_dir(file: &Path) -> Result<ReadDir> {
     Ok(ls_dir)
 }
 
-fn filename(path: &Path) -> Result<String> {
+fn filename(path: &Path) -> Result<OsString> {
     let fname = path.file_name()
-        .ok_or(XcpError::InvalidArguments(format!("Invalid path found: {:?}", path)))?
-        .to_string_lossy();
-    Ok(fname.to_string())
+        .ok_or(XcpError::InvalidArguments(format!("Invalid path found: {:?}", path)))?;
+    Ok(fname.to_os_string())
 }
 
 fn has_backup(file: &Path) -> Result<bool> {
     let fname = filename(file)?;
     let exists = ls_file_dir(file)?
         .any(|der| if let Ok(de) = der {
-            is_num_backup(&fname, &de.path()).is_some()
+            backup_digits(&fname, &de.path()).is_some()
         } else {
             false
         });
@@ -70,30 +70,49 @@ fn has_backup(file: &Path) -> Result<bool> {
 
 fn next_backup_num(file: &Path) -> Result<u64> {
     let fname = filename(file)?;
-    let current = ls_file_dir(file)?
-        .filter_map(|der| is_num_backup(&fname, &der.ok()?.path()))
-        .max()
-        .unwrap_or(0);
-    Ok(current + 1)
+    let mut current: u64 = 0;
+    for der in ls_file_dir(file)? {
+        let Ok(de) = der else { continue };
+        if let Some(digits) = backup_digits(&fname, &de.path()) {
+            // Refuse rather than reuse a number at or below one we
+            // can't represent.
+            let num = digits.parse::<u64>()
+                .map_err(|_| XcpError::CopyError(format!("Backup number too large: {:?}", de.path())))?;
+            current = current.max(num);
+        }
+    }
+    let next = current.checked_add(1)
+        .ok_or(XcpError::CopyError(format!("Backup number too large for {:?}", file)))?;
+    Ok(next)
 }
 
-fn is_num_backup(base_file: &str, candidate: &Path) -> Option<u64> {
+#[cfg(test)]
+fn is_num_backup<S: AsRef<OsStr>>(base_file: S, candidate: &Path) -> Option<u64> {
+    backup_digits(base_file.as_ref(), candidate)?
+        .parse::<u64>()
+        .ok()
+}
+
+// If the candidate is named exactly `<base_file>.~<digits>~` return
+// the digits. The comparison is on the raw bytes of the names, so it
+// holds for non-UTF-8 names and doesn't confuse `file.txt.~1~` with a
+// backup of `file`.
+fn backup_digits(base_file: &OsStr, candidate: &Path) -> Option<String> {
     let cname = candidate
         .file_name()?
-        .to_str()?;
-    if !cname.starts_with(base_file) {
+        .as_bytes();
+    let ext = cname
+        .strip_prefix(base_file.as_bytes())?
+        .strip_prefix(b".")?;
+    let ext = std::str::from_utf8(ext).ok()?;
+    let num = get_regex()
+        .captures(ext)?
+        .get(1)?
+        .as_str();
+    if !num.bytes().all(|b| b.is_ascii_digit()) {
         return None
     }
-    let ext = candidate
-        .extension()?
-        .to_string_lossy();
-    let num = get_regex()
-        .captures(&ext)?
-        .get(1)?
-        .as_str()
-        .parse::<u64>()
-        .ok()?;
-    Some(num)
+    Some(num.to_string())
 }
 
 #[cfg(test)]
